@@ -16,6 +16,7 @@ import (
 	"strconv"
 	"strings"
 	"testing"
+	"time"
 
 	"github.com/robustirc/robustirc/internal/robust"
 )
@@ -76,6 +77,46 @@ func TestVerifC04Api(t *testing.T) {
 				sess[l[0]] = s
 			}
 			cm++
+			if strings.HasPrefix(l[1], "QUIT") && prop == "C04" {
+				// the session ends with this line: what it is still owed (ERROR :Closing Link) can only be
+				// received by a reader that is connected at that moment -- afterwards the session is unknown
+				type got struct {
+					msgs []robust.Message
+					err  error
+				}
+				ch := make(chan got, 1)
+				go func() {
+					ms, _, err := n.stream(s, s.Auth, "", func(lines []robust.Message) bool {
+						for _, m := range lines {
+							if strings.HasPrefix(m.Data, "ERROR") {
+								return true
+							}
+						}
+						return false
+					})
+					ch <- got{ms, err}
+				}()
+				time.Sleep(20 * time.Millisecond) // let the reader reach the end of the stream
+				if r := n.post(s, l[1], cm); r.Code != 200 {
+					t.Fatalf("post %v: %d %s", l, r.Code, r.Body)
+				}
+				g := <-ch
+				res.Ops++
+				sawError := false
+				for _, m := range g.msgs {
+					if strings.HasPrefix(m.Data, "ERROR") {
+						sawError = true
+					}
+				}
+				if !sawError {
+					last := "(nothing)"
+					if len(g.msgs) > 0 {
+						last = g.msgs[len(g.msgs)-1].Data
+					}
+					res.report(sigs, "C04", "the last batch of an ending session is not delivered to its connected reader", fmt.Sprintf("history %s: session %s posted %q while reading its stream; the stream ended (%v) after %d messages without the ERROR line, last message %q", j.h.name, l[0], l[1], g.err, len(g.msgs), last), []string{"c04api", j.h.name})
+				}
+				continue
+			}
 			if r := n.post(s, l[1], cm); r.Code != 200 {
 				t.Fatalf("post %v: %d %s", l, r.Code, r.Body)
 			}
@@ -147,6 +188,22 @@ func TestVerifC04Api(t *testing.T) {
 			}
 			full = cut(full)
 			if prop == "C12" {
+				// completeness: every message of every stored batch that is addressed to the reader is served
+				served := map[string]bool{}
+				for _, m := range full {
+					served[fmt.Sprintf("%d.%d", m.Id.Id, m.Id.Reply)] = true
+				}
+				for _, e := range n.logEntries() {
+					batch, ok := outputStream.Get(robust.Id{Id: e.Id.Id})
+					if !ok {
+						continue
+					}
+					for _, om := range batch {
+						if om.InterestingFor[s.Num] && !served[fmt.Sprintf("%d.%d", om.Id.Id, om.Id.Reply)] && !strings.HasSuffix(om.Data, marker) && om.Id.Id <= full[len(full)-1].Id.Id {
+							res.report(sigs, "C12", "a message addressed to a session is not served to it by GET messages", fmt.Sprintf("history %s, readers in the order %v, session %s: %d.%d %q is addressed to it in the stored batch", j.h.name, j.order, who, om.Id.Id-robust.MessageOffset, om.Id.Reply, om.Data), seq)
+						}
+					}
+				}
 				for _, m := range full {
 					if !addressed(m, s.Num) {
 						res.report(sigs, "C12", "GET messages serves a message to a session it is not addressed to", fmt.Sprintf("history %s, session %s reading from the start: %d.%d %q", j.h.name, who, m.Id.Id-robust.MessageOffset, m.Id.Reply, m.Data), seq)
